@@ -691,8 +691,8 @@ where
         for (i, node) in nodes.iter_mut().enumerate() {
             if node.is_valid {
                 node.reset();
-                free_nodes.push(i as u32);
             }
+            free_nodes.push(i as u32);
         }
         
         // Reset LRU list
